@@ -258,6 +258,7 @@ def history(ctx, rng, lib_sets):
                 return dict(problem="connect attributes garbled", charset=cs0, sent=attrs, got=conn.client_connect_attrs), steps, []
         views = [(c.client, c.results)]
         stmts = []
+        pool_cols, pool_attrs = [], []
         for _ in range(rng.randint(4, 12)):
             r = rng.random()
             if r < 0.08:
@@ -369,6 +370,20 @@ def history(ctx, rng, lib_sets):
                 an, av = sample(rng, c.client, 3), sample(rng, c.client, 5)
                 col_sets = [rng.choice([n for n in lib_sets if n in REF]) for _ in range(2)]
                 names = [sample(rng, c.results if c.results in REF else "ascii", 4) + str(i) for i in range(2)]
+                # results repeat within a connection: the same column (name, type, character set) and the same attribute name as
+                # in an earlier result of this history, whenever the character sets now in force can express them - what was
+                # encoded / decoded for the earlier one must not be what is sent / received now
+                rep_res = set(repertoire(c.results if c.results in REF else "ascii"))
+                rep_cli = set(repertoire(c.client))
+                for i in range(2):
+                    cands = [(nm_, cs_) for (j, nm_, cs_) in pool_cols if j == i and all(ch in rep_res for ch in nm_)]
+                    if cands and rng.random() < 0.6:
+                        names[i], col_sets[i] = rng.choice(cands)
+                cands = [a_ for a_ in pool_attrs if all(ch in rep_cli for ch in a_)]
+                if cands and rng.random() < 0.6:
+                    an = rng.choice(cands)
+                pool_cols.extend((i, names[i], col_sets[i]) for i in range(2))
+                pool_attrs.append(an)
                 cells = [sample(rng, n) for n in col_sets]
                 TextSession.NEXT = ("result", ResultSet(rows=[tuple(cells)], columns=[ResultColumn(nm, ColumnType.VARCHAR, character_set=CharacterSet[n])
                                                                                       for nm, n in zip(names, col_sets)]))
@@ -477,7 +492,8 @@ def run(ctx: core.Ctx):
              "the character set of its name. (b) histories on the real connection with a reference client that encodes with the character "
              "set it last selected and changes it only on OK: handshake in a random one-byte collation (user, database, connect attributes), "
              "then COM_QUERY (SQL text, query attribute names and values), COM_INIT_DB, prepared statements with string parameters, results "
-             "with column names (results character set) and cells in two random column character sets, ERR messages, SET NAMES / SET "
+             "with column names (results character set) and cells in two random column character sets - columns and attribute names of earlier "
+             "results of the history are repeated whenever the character sets now in force can express them -, ERR messages, SET NAMES / SET "
              "CHARACTER SET / SET character_set_client / character_set_results / statements the server must refuse as a whole / "
              "COM_CHANGE_USER with a two-byte collation; after every command what the application received and what the client decoded "
              "are compared with what was sent, and the server's two variables with the client's belief and with the model. distinct = histories",
